@@ -37,6 +37,20 @@ type Solver struct {
 	defined []map[*Term]bool // per push level
 	Log     io.Writer
 	TimeoutMs int
+	shadows []*Solver // cross-checking back ends: fed the same script, must give the same verdicts
+}
+
+// Cross-check statistics.
+var StatCrossChecked, StatCrossMismatch int64
+
+// AddShadow attaches a second back end that receives every command; Check compares verdicts.
+func (s *Solver) AddShadow(name string) error {
+	sh, err := NewSolver(name)
+	if err != nil {
+		return err
+	}
+	s.shadows = append(s.shadows, sh)
+	return nil
 }
 
 // Backends known on this image.
@@ -80,6 +94,9 @@ func NewSolver(name string) (*Solver, error) {
 }
 
 func (s *Solver) Close() {
+	for _, sh := range s.shadows {
+		sh.Close()
+	}
 	if s.cmd != nil {
 		s.in.Close()
 		s.cmd.Process.Kill()
@@ -89,6 +106,11 @@ func (s *Solver) Close() {
 }
 
 func (s *Solver) send(line string) {
+	for _, sh := range s.shadows {
+		if !strings.HasPrefix(line, "(check-sat)") && !strings.HasPrefix(line, "(echo") && !strings.HasPrefix(line, "(get-value") {
+			sh.send(line)
+		}
+	}
 	if s.Log != nil {
 		fmt.Fprintln(s.Log, line)
 	}
@@ -211,6 +233,14 @@ func (s *Solver) Check() Result {
 			res, got = Unknown, true
 		}
 	}
+	for _, sh := range s.shadows {
+		r2 := sh.checkOnly()
+		atomic.AddInt64(&StatCrossChecked, 1)
+		if got && !sawErr && r2 != res && r2 != Unknown && res != Unknown {
+			atomic.AddInt64(&StatCrossMismatch, 1)
+			sawErr = true // disagreement between back ends: the query is inconclusive
+		}
+	}
 	atomic.AddInt64(&StatNanos, int64(time.Since(t0)))
 	if sawErr || !got {
 		atomic.AddInt64(&StatErrors, 1)
@@ -308,4 +338,27 @@ func parseVal(v string) (uint64, bool) {
 		return n, err == nil
 	}
 	return 0, false
+}
+
+// checkOnly runs check-sat on a shadow back end without touching the statistics.
+func (s *Solver) checkOnly() Result {
+	io.WriteString(s.in, "(check-sat)\n(echo \"<<done>>\")\n")
+	res := Unknown
+	for {
+		line, err := s.readLine()
+		if err != nil {
+			return Unknown
+		}
+		if strings.Contains(line, "<<done>>") {
+			return res
+		}
+		switch {
+		case strings.HasPrefix(line, "(error"):
+			res = Unknown
+		case line == "sat":
+			res = Sat
+		case line == "unsat":
+			res = Unsat
+		}
+	}
 }
